@@ -476,7 +476,8 @@ def checker_design(res, graphs_small, q):
     wd = workdir("checker-%s-%s" % (res.pid, res.tier))
     gp = os.path.join(wd, "g.ndjson")
     write_ndjson(gp, graphs_small)
-    for cfg in (["Checker_bfs_2w", "Checker_dfs_2w"] if q else ["Checker_bfs_1w", "Checker_dfs_1w", "Checker_bfs_2w", "Checker_dfs_2w"]):
+    for cfg in (["Checker_bfs_2w", "Checker_dfs_2w"] if q else ["Checker_bfs_1w", "Checker_dfs_1w", "Checker_bfs_2w", "Checker_dfs_2w",
+                                                                "Checker_bfs_3w", "Checker_dfs_3w"]):
         r = run_tlc("Checker.tla", "cfg/%s.cfg" % cfg, env=dict(GRAPHS=gp), workers=10, timeout=3000, heap="10g", name=cfg)
         res.add_tlc(r, cfg)
         if not r["ok"]:
